@@ -53,7 +53,7 @@ func connInv(c *Conn) bool {
 		return false
 	}
 	// internal buffers do not overlap
-	if c.client && (gvcRegion(c.writeBuf) == gvcRegion(c.readControlBuf[:]) || gvcRegion(c.writeBuf) == gvcRegion(c.writeHeaderBuf[:]) || gvcRegion(c.writeBuf) == gvcRegion(c.readHeaderBuf[:])) {
+	if (gvcRegion(c.writeBuf) == gvcRegion(c.readControlBuf[:]) || gvcRegion(c.writeBuf) == gvcRegion(c.writeHeaderBuf[:]) || gvcRegion(c.writeBuf) == gvcRegion(c.readHeaderBuf[:])) {
 		return false
 	}
 	// the buffered reader of a connection reads for that connection (ghost ownership,
